@@ -5,9 +5,9 @@ META = {
                "parser behaviour on arbitrary text beyond 'text not produced by the formatter for this family is rejected by the stubbed inet_pton'",
     "assumptions": ["inet_ntop(af,a) = writes a solver-chosen NUL-terminated string of TLEN characters over the family's alphabet, ENOSPC when size < TLEN+1",
                     "inet_pton(af,s) = 1 exactly for the string produced for that family, returning the address; 0 otherwise",
-                    "IPv6 text never ends in a single ':' (true of every inet_ntop output)",
+                    "parse.c: inet_pton on arbitrary text = may accept (returning any address) or reject, chosen by the solver per call", "IPv6 text never ends in a single ':' (true of every inet_ntop output)",
                     "malloc never fails in harness allocations"],
-    "harness_functions": ["v_inet_ntop", "v_inet_pton", "ref_u16", "be32", "ref_mask4", "ref_mask6_byte"],
+    "harness_functions": ["harness", "v_inet_ntop", "v_inet_pton", "ref_u16", "be32", "ref_mask4", "ref_mask6_byte"],
 }
 
 def jobs(tier):
@@ -24,7 +24,7 @@ def jobs(tier):
             sizes = full if tier == "thorough" else [0, 1, 2, 3, tl, tl + 1, tl + 2, tl + 3, tl + 8, tl + 9, tl + 10, 64]
             for bs in sorted(set(sizes)):
                 out.append({"name": "text-af%d-t%d-bs%d" % (af, tl, bs), "src": "text.c", "defs": {"AF": af, "TLEN": tl, "BS": bs},
-                            "unwind": tl + 18, "solver": "cadical",
+                            "unwind": tl + 18, "solver": "cadical", "timeout": 400 if tier == "quick" else 1500,
                             "shape": "AF_INET%s, libc text of %d chars (symbolic), buffer %d bytes, port and address symbolic" % ("6" if af == 6 else "", tl, bs),
                             "desc": "format == conventional text, sizes, no overrun; parse(format(a,port)) == (a,port)"})
     for af, tlens in ((4, [7, 15]), (6, [2, 39])):
@@ -41,4 +41,10 @@ def jobs(tier):
               out.append({"name": "net-af%d-t%d-p%d" % (af, tl, pd), "src": "text.c", "defs": {"AF": af, "TLEN": tl, "BS": 64, "MODE": 2, "PDIG": pd}, "unwind": max(tl + 12, 19),
                         "solver": "cadical", "shape": "addr/len text, addr %d chars, every prefix length with %d decimal digits" % (tl, pd),
                         "desc": "str_net_to_ss parses address and prefix length; default host prefix"})
+    for fn, fnn in ((0, "addr"), (1, "addrport")):
+        for n in ([1, 3, 111, 112, 113] if tier == "quick" else [1, 2, 3, 4, 8, 110, 111, 112, 113, 114, 116]):
+            out.append({"name": "parse-%s-n%d" % (fnn, n), "src": "parse.c", "defs": {"LEN": n, "FN": fn}, "unwind": n + 8, "solver": "cadical",
+                        "timeout": 300 if tier == "quick" else 1500,
+                        "shape": "arbitrary text of %d bytes (symbolic), inet_pton accepts or rejects per call (symbolic)" % n,
+                        "desc": "%s: memory safe incl. the on-stack copy, result is 0 with a known family or EINVAL; over-long address part refused" % ("sa_addr_from_str" if fn == 0 else "sa_addr_port_from_str")})
     return out
